@@ -6,6 +6,7 @@ import (
 	"encoding/json"
 	"fmt"
 	"os"
+	"os/exec"
 	"path/filepath"
 	"regexp"
 	"sort"
@@ -239,8 +240,12 @@ func runCheck(id, tier string, updateBaseline bool, only string) int {
 			}
 		}
 		violations++
-		rp := writeReplay(outDir(), id, name, o, reason)
-		out = append(out, fmt.Sprintf("VIOLATION property=%s replay=%s obligation=%s no-failing-input-found", id, rp, name))
+		rp, reproduced := writeReplay(outDir(), id, name, o, reason)
+		if reproduced {
+			out = append(out, fmt.Sprintf("VIOLATION property=%s replay=%s obligation=%s", id, rp, name))
+		} else {
+			out = append(out, fmt.Sprintf("VIOLATION property=%s replay=%s obligation=%s no-failing-input-found", id, rp, name))
+		}
 	}
 	for _, o := range res.obls {
 		rep := OblReport{Name: shortKey(o.Name), Kind: o.Kind, Pos: o.Pos, Clause: o.Src, Status: o.Result.Status, Solver: o.Result.Solver, Secs: o.Result.Secs}
@@ -409,7 +414,60 @@ func trunc(s string, n int) string {
 
 var nonAlnum = regexp.MustCompile(`[^A-Za-z0-9_.\-]+`)
 
-func writeReplay(vd, id, name string, o *Obligation, reason string) string {
+// Registered replay drivers: in-package Go tests (kept in /verif/replay/drivers) that exercise the
+// real code on the witness class of an obligation; a failing test is a failing input.
+type replayDriver struct {
+	Obligation string `json:"obligation_regex"`
+	Pkg        string `json:"pkg"`
+	File       string `json:"test_file"`
+	Run        string `json:"run"`
+}
+
+func runReplayDriver(vd, name string, model string) (found bool, reproduced bool, output string, drv replayDriver) {
+	var drivers []replayDriver
+	if loadJSON(filepath.Join(vd, "replay", "registry.json"), &drivers) != nil {
+		return
+	}
+	for _, d := range drivers {
+		re, err := regexp.Compile(d.Obligation)
+		if err != nil || !re.MatchString(name) {
+			continue
+		}
+		found = true
+		drv = d
+		tmp, err := os.MkdirTemp("", "govc-replay")
+		if err != nil {
+			return
+		}
+		defer os.RemoveAll(tmp)
+		src := filepath.Join(vd, d.File)
+		target := filepath.Join(repoDir(), strings.TrimPrefix(d.Pkg, "./"), "zz_verif_replay_test.go")
+		repl := map[string]string{target: src}
+		// when the check itself runs on an overlay (self-test), replay on the same overlay
+		if ov := os.Getenv("GOVC_OVERLAY"); ov != "" {
+			for _, kv := range strings.Split(ov, ",") {
+				if i := strings.Index(kv, "="); i > 0 {
+					repl[kv[:i]] = kv[i+1:]
+				}
+			}
+		}
+		ovb, _ := json.Marshal(map[string]any{"Replace": repl})
+		ovf := filepath.Join(tmp, "overlay.json")
+		os.WriteFile(ovf, ovb, 0o644)
+		os.WriteFile(filepath.Join(tmp, "model.smt2"), []byte(model), 0o644)
+		cmd := exec.Command("go", "test", "-overlay", ovf, "-vet=off", "-count=1", "-timeout", "120s", "-run", d.Run, d.Pkg)
+		cmd.Dir = repoDir()
+		cmd.Env = append(os.Environ(), "GOVC_MODEL="+filepath.Join(tmp, "model.smt2"))
+		b, err := cmd.CombinedOutput()
+		output = trunc(string(b), 6000)
+		reproduced = err != nil && strings.Contains(string(b), "--- FAIL")
+		return
+	}
+	return
+}
+
+func writeReplay(vd, id, name string, o *Obligation, reason string) (string, bool) {
+	reproduced := false
 	dir := filepath.Join(vd, "replays", id)
 	os.MkdirAll(dir, 0o755)
 	fn := nonAlnum.ReplaceAllString(shortKey(name), "_")
@@ -433,9 +491,25 @@ func writeReplay(vd, id, name string, o *Obligation, reason string) string {
 		rec["replayed"] = false
 		rec["replay_note"] = "no registered replay driver for this obligation: no-failing-input-found"
 	}
+	model := ""
+	if o != nil {
+		model = o.Result.Model
+	}
+	if found, rep, outp, drv := runReplayDriver(verifDir(), name, model); found {
+		rec["replayed"] = true
+		rec["replay_driver"] = drv.File + " -run " + drv.Run
+		rec["replay_output"] = outp
+		rec["replay_reproduced_on_real_code"] = rep
+		if rep {
+			rec["replay_note"] = "the registered driver's witness fails on the real code (see replay_output)"
+			reproduced = true
+		} else {
+			rec["replay_note"] = "registered driver ran but did not reproduce a failure: no-failing-input-found"
+		}
+	}
 	b, _ := json.MarshalIndent(rec, "", " ")
 	os.WriteFile(path, b, 0o644)
-	return path
+	return path, reproduced
 }
 
 // runSolversCover: satisfiability probe for vacuity; sat or unknown are fine, unsat is vacuous.
